@@ -20,7 +20,7 @@ use write_fonts::{
         types::GlyphId,
         FontRef, TopLevelTable,
     },
-    types::Offset16,
+    types::{Offset16, Offset32},
     FontBuilder,
 };
 
@@ -80,8 +80,9 @@ fn subset_gdef(gdef: &Gdef, plan: &Plan, s: &mut Serializer) -> Result<(), Seria
             .map_err(|_| SerializeErrorFlags::SERIALIZE_ERROR_READ_ERROR)?
         {
             let snapshot_version2 = s.snapshot();
-            let var_store_offset_pos = s.embed(0_u16)?;
-            match Offset16::serialize_subset(
+            // itemVarStoreOffset is an Offset32
+            let var_store_offset_pos = s.embed(0_u32)?;
+            match Offset32::serialize_subset(
                 &var_store,
                 s,
                 plan,
@@ -579,6 +580,45 @@ mod test {
         assert!(varidx_set.contains(3));
         assert!(varidx_set.contains(5));
         assert!(varidx_set.contains(0));
+    }
+
+    #[test]
+    fn test_subset_gdef_varstore_is_behind_an_offset32() {
+        use write_fonts::read::{FontData, FontRead};
+        let font =
+            FontRef::new(include_bytes!("../test-data/fonts/AnekBangla-subset.ttf")).unwrap();
+        let gdef = font.gdef().unwrap();
+
+        // glyph 4 has a ligature caret with a VariationIndex device
+        let mut plan = Plan {
+            font_num_glyphs: 13,
+            ..Default::default()
+        };
+        for (old, new) in [(0_u32, 0_u32), (4, 1)] {
+            plan.glyphset_gsub.insert(GlyphId::from(old));
+            plan.glyph_map_gsub
+                .insert(GlyphId::from(old), GlyphId::from(new));
+        }
+        plan.collect_layout_var_indices(&font);
+        assert!(!plan.gdef_varstore_inner_maps.is_empty());
+
+        let mut s = Serializer::new(4096);
+        assert_eq!(s.start_serialize(), Ok(()));
+        assert!(subset_gdef(&gdef, &plan, &mut s).is_ok());
+        assert!(!s.in_error());
+        s.end_serialize();
+        let bytes = s.copy_bytes();
+
+        let subset = Gdef::read(FontData::new(&bytes)).unwrap();
+        assert_eq!(subset.version().minor, 3);
+        // the 18-byte version 1.3 header: the variation store offset is 32 bits wide
+        let store_offset = u32::from_be_bytes(bytes[14..18].try_into().unwrap()) as usize;
+        assert!(store_offset >= 18 && store_offset < bytes.len());
+        let store = subset.item_var_store().unwrap().unwrap();
+        assert_eq!(store.format(), 1);
+        assert_eq!(store.item_variation_data_count(), 1);
+        let var_data = store.item_variation_data().get(0).unwrap().unwrap();
+        assert_eq!(var_data.item_count(), 1);
     }
 
     #[test]
